@@ -1055,8 +1055,11 @@ where
                 costs[i] = high_cmplt;
                 done[i] = true;
             } else if let Some(hs_noncmplt) = hs_noncmplt {
-                debug_assert!(hs_noncmplt >= costs[i]);
-                costs[i] = hs_noncmplt;
+                // Until then the rule costs at least as much as the dearest production seen so
+                // far, complete or not.
+                let hs = hs_cmplt.map_or(hs_noncmplt, |x| x.max(hs_noncmplt));
+                debug_assert!(hs >= costs[i]);
+                costs[i] = hs;
             }
         }
         if all_done {
